@@ -562,12 +562,15 @@ class PoolRun(object):
             jt = threading.Thread(target=self._final_join, args=(c,), name="vf-joiner")
             jt.daemon = True
             jt.start()
-            self.wait_progress(lambda: not jt.is_alive(), "final join")
+            if not self.wait_progress(lambda: not jt.is_alive(), "final join"):
+                h.ev("abandoned", what=self.frozen["what"])
         if not self.frozen:
             st = threading.Thread(target=self._final_stop, name="vf-stopper")
             st.daemon = True
             st.start()
             stopped = self.wait_progress(lambda: not st.is_alive(), "final stop")
+            if not stopped:
+                h.ev("abandoned", what=self.frozen["what"])
             if stopped:
                 gone = self.wait_progress(lambda: not self.workers_alive(), "workers terminate after stop")
                 h.ev("workers_gone", ok=gone, alive=len(self.workers_alive()))
@@ -822,9 +825,24 @@ def check_c11(events, prog):
                         break
         elif j["result"] is not False:
             out.append(("join-returned-non-boolean", {"result": repr(j["result"])}))
-    for what in abandoned:
-        if "stop" in what:
-            out.append(("stop-did-not-return", {"what": what}))
+    inconclusive = any("watchdog" in w for w in abandoned)
+    if abandoned and not inconclusive:
+        # a frozen history: which lifecycle call never returned?
+        if ix["open_stops"]:
+            out.append(("stop-did-not-return", {"what": abandoned[0], "stop_call": ix["open_stops"][0]}))
+        for jc in ix["open_joins"]:
+            # every task enqueued before the join has ended (or was legitimately dropped): join had to return
+            pending = []
+            for tok, e in ix["enq"].items():
+                if e["ok"] and e["ret"] is not None and e["ret"] < jc and not ix["end"].get(tok):
+                    if any(sr > e["call"] and sc < jc and not any(st[0] < sc for st in ix["start"].get(tok, []))
+                           for sc, sr in eff_stops):
+                        continue
+                    pending.append(tok)
+            if not pending:
+                out.append(("join-did-not-return-although-all-tasks-finished", {"what": abandoned[0], "join_call": jc}))
+            else:
+                out.append(("join-blocked-forever-on-unfinished-tasks", {"what": abandoned[0], "pending": pending[:5]}))
     for seq, kind, ident, f in events:
         if kind == "workers_gone" and not f["ok"]:
             out.append(("worker-alive-after-stop", {"alive": f["alive"]}))
